@@ -73,7 +73,7 @@ struct PerType {
         sqrt_pass(d1, K, std::integral_constant<bool, sizeof(S) == 4>());
     }
     static void sqrt_pass(const DomainS<S>& d1, const std::vector<S>& K, std::true_type) {
-        if (opt().thorough) explore<V, sqrt>(erase<S>(DomFull1<S>()), &K);
+        if (exh32()) explore<V, sqrt>(erase<S>(DomFull1<S>()), &K);
         else explore<V, sqrt>(d1, &K);
     }
     static void sqrt_pass(const DomainS<S>& d1, const std::vector<S>& K, std::false_type) { explore<V, sqrt>(d1, &K); }
